@@ -129,6 +129,28 @@ func c48Negated(t JumpTest) JumpTest {
 	return t
 }
 
+func c48TestName(t JumpTest) string {
+	switch t {
+	case JumpEqual:
+		return "JumpEqual"
+	case JumpNotEqual:
+		return "JumpNotEqual"
+	case JumpGreaterThan:
+		return "JumpGreaterThan"
+	case JumpLessThan:
+		return "JumpLessThan"
+	case JumpGreaterOrEqual:
+		return "JumpGreaterOrEqual"
+	case JumpLessOrEqual:
+		return "JumpLessOrEqual"
+	case JumpBitsSet:
+		return "JumpBitsSet"
+	case JumpBitsNotSet:
+		return "JumpBitsNotSet"
+	}
+	return fmt.Sprintf("JumpTest(%d)", t)
+}
+
 // c48Dir1Kind names how y = Disassemble(Assemble(x)) differs from x (raw = Assemble(x)).
 //
 //	alias-negated-test:     y is the same conditional jump written with the opposite test and
@@ -155,14 +177,20 @@ func c48Dir1Kind(x, y Instruction, raw RawInstruction) string {
 		}
 		return s
 	}
+	// The alias kinds name the class of the input that does not come back (which test, and which
+	// of its skips are zero): of two spellings with one encoding only one can round-trip, and
+	// which one it is is part of what is recorded, so that a change of sides shows up.
+	shape := func(st, sf uint8) string {
+		return map[bool]string{true: "0", false: "N"}[st == 0] + map[bool]string{true: "0", false: "N"}[sf == 0]
+	}
 	switch xv := x.(type) {
 	case JumpIf:
 		if yv, ok := y.(JumpIf); ok && yv.Cond == c48Negated(xv.Cond) && yv.Cond != xv.Cond && yv.Val == xv.Val && yv.SkipTrue == xv.SkipFalse && yv.SkipFalse == xv.SkipTrue {
-			return "alias-negated-test"
+			return fmt.Sprintf("alias-negated-test(%s,skips=%s)", c48TestName(xv.Cond), shape(xv.SkipTrue, xv.SkipFalse))
 		}
 	case JumpIfX:
 		if yv, ok := y.(JumpIfX); ok && yv.Cond == c48Negated(xv.Cond) && yv.Cond != xv.Cond && yv.SkipTrue == xv.SkipFalse && yv.SkipFalse == xv.SkipTrue {
-			return "alias-negated-test"
+			return fmt.Sprintf("alias-negated-test(%s,skips=%s)", c48TestName(xv.Cond), shape(xv.SkipTrue, xv.SkipFalse))
 		}
 	case LoadAbsolute:
 		if yv, ok := y.(LoadExtension); ok && xv.Size == 4 && xv.Off >= 0xfffff000 && int64(yv.Num) == int64(xv.Off)-0xfffff000 {
